@@ -163,6 +163,72 @@ def size_accounting():
     return n, fails
 
 
+def refused_appends():
+    """The accumulator's way of using a builder: records are appended until one is refused for size (None), the refused
+    one goes to the next batch, the batch is built. The bytes must be the well-formed batch of exactly the accepted
+    records - a refused append leaves no trace - and both implementations must produce the same bytes for the same
+    sequence of calls."""
+    fails, n = [], 0
+    for magic, codec in ((2, 0), (2, 1), (1, 0), (1, 1), (0, 0)):
+        built = {}
+        for impl in ("py", "c"):
+            I = cc.impls()[impl]
+
+            def mk(limit):
+                if magic == 2:
+                    return I["v2b"](magic=2, compression_type=codec, is_transactional=0, producer_id=-1, producer_epoch=-1,
+                                    base_sequence=-1, batch_size=limit)
+                return I["v01b"](magic=magic, compression_type=codec, batch_size=limit)
+
+            def add(b, i, ts, k, v):
+                if magic == 2:
+                    return b.append(i, ts, k, v, [])
+                return b.append(i, timestamp=ts, key=k, value=v, headers=[])
+            for keep in (1, 2, 3):
+                # records 0..keep-1 fit exactly; the following ones, with ever larger timestamps and sizes, are refused
+                recs = [(1000 * (i + 1), b"k%d" % i, b"v" * (40 + i), []) for i in range(keep)]
+                late = [(1000 * (keep + j + 1) + 777, b"late%d" % j, b"w" * (60 + 500 * j), []) for j in range(3)]
+                full = mk(1 << 22)
+                for i, (ts, k, v, _) in enumerate(recs):
+                    add(full, i, ts, k, v)
+                limit = len(bytes(full.build())) if codec == 0 else None
+                if limit is None:
+                    # compressed: the limit applies to the uncompressed estimate; take the uncompressed size of the kept records
+                    plain = (I["v2b"](magic=2, compression_type=0, is_transactional=0, producer_id=-1, producer_epoch=-1,
+                                      base_sequence=-1, batch_size=1 << 22) if magic == 2
+                             else I["v01b"](magic=magic, compression_type=0, batch_size=1 << 22))
+                    for i, (ts, k, v, _) in enumerate(recs):
+                        add(plain, i, ts, k, v)
+                    limit = len(bytes(plain.build()))
+                b = mk(limit)
+                accepted = []
+                for i, (ts, k, v, h) in enumerate(recs + late):
+                    if add(b, len(accepted), ts, k, v) is not None:
+                        accepted.append((ts, k, v, h))
+                data = bytes(b.build())
+                built[(impl, keep)] = (data, len(accepted))
+                n += 1
+                want = expected(magic, accepted)
+                for dec in ("py", "c"):
+                    got = cc.decode(dec, data, validate=True)
+                    if not (got[0] == "ok" and got[1] == want and all(got[2])):
+                        fails.append({"clause": "refused-append-leaves-no-trace", "magic": magic, "codec": codec, "builder": impl,
+                                      "decoder": dec, "accepted": len(accepted), "got": repr(got)[:300], "want": repr(want)[:300]})
+                if magic == 2 and len(data) >= 61 and accepted:
+                    fts, mts = struct.unpack(">q", data[27:35])[0], struct.unpack(">q", data[35:43])[0]
+                    cnt = struct.unpack(">i", data[57:61])[0]
+                    tss = [ts for ts, _, _, _ in accepted]
+                    if not (cnt == len(accepted) and fts == tss[0] and mts == max(tss)):
+                        fails.append({"clause": "header-describes-the-accepted-records-only", "codec": codec, "builder": impl,
+                                      "accepted": len(accepted), "count": cnt, "first_ts": fts, "max_ts": mts, "want_max_ts": max(tss)})
+        for keep in (1, 2, 3):
+            if built[("py", keep)] != built[("c", keep)] and codec == 0:
+                fails.append({"clause": "both-builders-produce-the-same-bytes-for-the-same-calls", "magic": magic, "keep": keep,
+                              "py": built[("py", keep)][0].hex()[:200], "c": built[("c", keep)][0].hex()[:200],
+                              "accepted": (built[("py", keep)][1], built[("c", keep)][1])})
+    return n, fails
+
+
 def main():
     ap = argparse.ArgumentParser()
     ap.add_argument("--tier", default="quick")
@@ -185,6 +251,12 @@ def main():
           "bound": "compressed v1 wrappers (every codec available) built by both encoders, with and without the LogAppendTime bit, "
                    "decoded by both decoders: inner timestamps and timestamp types per the v1 message format",
           "failures": fails, "replay": {"script": REPLAY}})
+    n, fails = refused_appends()
+    emit({"name": "codec-refused-appends", "exhaustive": True, "cases": n, "distinct_nontrivial": n,
+          "bound": "magic 0/1/2 (plain, gzip for 1/2) x both builders x 1..3 records that fill batch_size exactly, followed by three "
+                   "appends with larger timestamps that are refused for size: decoded by both decoders, v2 header fields, byte "
+                   "equality of the two builders (uncompressed)",
+          "failures": fails, "replay": {"script": REPLAY}})
     n, fails = size_accounting()
     emit({"name": "codec-size-accounting", "exhaustive": True, "cases": n, "distinct_nontrivial": n,
           "bound": "v2 builders of both implementations over the record sets: size() equals the bytes built, size_in_bytes is an upper "
@@ -200,7 +272,8 @@ n, nt, f1 = C09.roundtrips("quick")
 n2, f2 = C09.concatenations("quick", 0)
 n3, f3 = C09.size_accounting()
 n4, f4 = C09.log_append_time()
-bad = f1 + f2 + f3 + f4
+n5, f5 = C09.refused_appends()
+bad = f1 + f2 + f3 + f4 + f5
 VIOLATED = bool(bad); DETAIL = "%d of %d codec cases fail; first: %r" % (len(bad), n + n2 + n3, bad[:1])
 '''
 
